@@ -280,7 +280,7 @@ namespace embedded_pairing::wkdibe {
                 }
             }
 
-            if (!in_to) {
+            if (!in_to && !to.omitAllFromKeysUnlessPresent) {
                 sk.b[x].idx = parent.b[i].idx;
                 sk.b[x].hexp.copy(parent.b[i].hexp);
                 x++;
